@@ -1,6 +1,6 @@
 (** C06.4 -- the executable model of Block.solve_impulse_nonlinear (Model/NLSolve.v: nonlinear evaluation along the DAG of simple
     blocks, H_U from the derivative accumulators chained by the mixed sparse/dense algebra, checked linear solve, quasi-Newton loop),
-    for EVERY model, horizon, steady-state table, shock, tolerance and iteration limit:
+    for EVERY model, horizon, with or without a supplied initial steady state ([force]: then no block is skipped), steady-state table, shock, tolerance and iteration limit:
     if it returns (U, results) then results is the model evaluated at the shocks and the RETURNED unknown paths (mutual consistency),
     and every target deviates from zero by less than the tolerance at every date; with the iteration limit exhausted nothing is
     returned; every update applied was U - X with H_U X = stacked target residuals.
@@ -9,18 +9,18 @@ From Coq Require Import ZArith QArith Qcanon Bool List Arith.
 From SSJ Require Import Model.Sparse Model.SimpleBlk Model.SimpleBlkQ Model.Chain Model.GET Model.NLSolve Proofs.NLSolveProofs.
 Import ListNotations.
 
-Theorem nl_solve_sound : forall maxit N T ss ssi prog U Tg shocks tol,
-  (forall Up res, nl_solve maxit N T ss ssi prog U Tg shocks tol = Converged Up res ->
-     res = nl_eval T ss ssi prog (init_paths N ss (shocks ++ combine U Up)) /\
+Theorem nl_solve_sound : forall force maxit N T ss ssi prog U Tg shocks tol,
+  (forall Up res, nl_solve force maxit N T ss ssi prog U Tg shocks tol = Converged Up res ->
+     res = nl_eval force T ss ssi prog (init_paths N ss (shocks ++ combine U Up)) /\
      forall tg v, In tg Tg -> In v (dev_of ss res tg) -> (- tol < v)%Qc /\ (v < tol)%Qc) /\
-  (forall Up res, nl_solve 0 N T ss ssi prog U Tg shocks tol <> Converged Up res) /\
+  (forall Up res, nl_solve force 0 N T ss ssi prog U Tg shocks tol <> Converged Up res) /\
   (forall HU Up res Up', nl_update T ss HU Tg Up res = Some Up' ->
      exists X, mmul HU X = map (fun x => [x]) (flat_map (dev_of ss res) Tg) /\
                Up' = map (fun ui => map (fun p => Qcminus (fst p) (snd p))
                                         (combine (nth ui Up []) (firstn (Z.to_nat T) (skipn (ui * Z.to_nat T) (map (fun row => hd g0 row) X)))))
                          (seq 0 (length Up))).
 Proof.
-  intros. split; [intros Up res H; exact (nl_solve_sound_lemma _ _ _ _ _ _ _ _ _ _ _ _ H)|].
+  intros. split; [intros Up res H; exact (nl_solve_sound_lemma _ _ _ _ _ _ _ _ _ _ _ _ _ H)|].
   split; [intros; apply nl_solve_no_return_lemma | intros; apply nl_update_sound; assumption].
 Qed.
 Print Assumptions nl_solve_sound.
@@ -31,10 +31,10 @@ Definition ex_prog : list sblock :=
     {| sb_ins := [1; 2]%nat; sb_outs := [(3%nat, EAdd (EMul (EVar 1%nat) (ENum (qn 8 1))) (EPow (EShift 1%Z (EVar 2%nat)) 1%nat))] |} ].
 Definition ex_ss : tbl := [qn 1 1; qn 1 1; qn 1 1; qn 9 1].
 Example nl_solve_converges :
-  match nl_solve 8 4 3%Z ex_ss ex_ss ex_prog [1%nat] [3%nat] [(0%nat, [qn 1 8; qn 0 1; qn (-1) 16])] (qn 1 1000000) with
+  match nl_solve false 8 4 3%Z ex_ss ex_ss ex_prog [1%nat] [3%nat] [(0%nat, [qn 1 8; qn 0 1; qn (-1) 16])] (qn 1 1000000) with
   | Converged Up res => negb (forallb (fun v => Qc_eq_bool v g0) (concat Up)) | _ => false end = true.
 Proof. vm_compute. reflexivity. Qed.
 Example nl_solve_gives_up :
-  match nl_solve 1 4 3%Z ex_ss ex_ss ex_prog [1%nat] [3%nat] [(0%nat, [qn 1 8; qn 0 1; qn (-1) 16])] (qn 1 1000000) with
+  match nl_solve false 1 4 3%Z ex_ss ex_ss ex_prog [1%nat] [3%nat] [(0%nat, [qn 1 8; qn 0 1; qn (-1) 16])] (qn 1 1000000) with
   | NoConvergence => true | _ => false end = true.
 Proof. vm_compute. reflexivity. Qed.
